@@ -24,7 +24,7 @@ from ..cfg import CFG
 from ..model import ClassInfo, FuncInfo, Repo, dotted, load_repo
 from ..opsummary import all_summaries, reach, sunk_values
 from ..report import AnalysisError, Report
-from ..util import body_walk, cmp_normal, kwarg, src, walk_no_nested
+from ..util import canon_func, body_walk, cmp_normal, kwarg, src, walk_no_nested
 from ..vmvals import Fresh
 
 SEVS = ["LIKELY_SAFE", "POSSIBLY_UNSAFE", "SUSPICIOUS", "LIKELY_UNSAFE", "LIKELY_OVERTLY_MALICIOUS", "OVERTLY_MALICIOUS"]
@@ -79,7 +79,7 @@ def check_table(repo: Repo, rep: Report):
             rep.ok("C04.table", f"{ui.qualname}.UNSAFE_MODULES", f"'{m}' listed", f"{file}:{tab.lineno}")
         else:
             rep.bad("C04.table", f"{ui.qualname}.UNSAFE_MODULES", f"missing-module:{m}", f"the documented dangerous module '{m}' is no longer in UNSAFE_MODULES: a global from it is not rated LIKELY_OVERTLY_MALICIOUS", file, tab.lineno)
-    f = ui.method("analyze")
+    f = canon_func(ui.method("analyze"), "node", {1: "context"})
     g = CFG(f.node)
     # the yield guarded by `module_name in self.UNSAFE_MODULES`
     ok_mod = False
@@ -115,7 +115,8 @@ def check_table(repo: Repo, rep: Report):
     lst = bc.attrs.get("BAD_CALLS")
     names = {e.value for e in lst.elts if isinstance(e, ast.Constant)} if isinstance(lst, (ast.List, ast.Tuple, ast.Set)) else set()
     obe = repo.cls(f"{A}.OvertlyBadEvals")
-    obe_f = obe.method("analyze")
+    obe_f = canon_func(obe.method("analyze"), "node", {1: "context"})
+    bc_f = canon_func(bc.method("analyze"), "node", {1: "context"})
     obe_names = set()
     for n in body_walk(obe_f.node):
         if isinstance(n, ast.Call) and isinstance(n.func, ast.Attribute) and n.func.attr == "startswith" and n.args and isinstance(n.args[0], ast.Constant) and str(n.args[0].value).endswith("("):
@@ -126,7 +127,7 @@ def check_table(repo: Repo, rep: Report):
         else:
             rep.bad("C04.table", f"{bc.qualname}.BAD_CALLS", f"missing-call:{nm}", f"a call to `{nm}` is no longer matched by BadCalls.BAD_CALLS or OvertlyBadEvals: it is not rated OVERTLY_MALICIOUS", file, bc.node.lineno)
     ok_any = False
-    for cls, fn in ((bc, bc.method("analyze")), (obe, obe_f)):
+    for cls, fn in ((bc, bc_f), (obe, obe_f)):
         for y, c in yields_in(fn):
             s = sev_of(c)
             gg = CFG(fn.node)
@@ -142,7 +143,7 @@ def check_table(repo: Repo, rep: Report):
     # the likely-safe exemption is flow-insensitive, so a decoy `from codecs import open` must not be able
     # to exempt a later call of the real builtin `open`
     unconditional = []
-    for cls, fn in ((bc, bc.method("analyze")), (obe, obe_f)):
+    for cls, fn in ((bc, bc_f), (obe, obe_f)):
         lp = next((n for n in fn.node.body if isinstance(n, ast.For)), None)
         if lp is None:
             continue
@@ -171,7 +172,7 @@ def check_table(repo: Repo, rep: Report):
     if not ok_any:
         rep.bad("C04.table", bc.qualname, "no-bad-call-rule", "no analysis yields OVERTLY_MALICIOUS under a `startswith('<name>(')` match any more", file, bc.node.lineno)
     # ---- non-standard imports
-    ns = repo.cls(f"{A}.NonStandardImports").method("analyze")
+    ns = canon_func(repo.cls(f"{A}.NonStandardImports").method("analyze"), "node", {1: "context"})
     ys = yields_in(ns)
     loops = [n for n in ns.node.body if isinstance(n, ast.For)]
     if not (loops and src(loops[0].iter) == "context.pickled.non_standard_imports()"):
@@ -180,14 +181,14 @@ def check_table(repo: Repo, rep: Report):
         rep.bad("C04.table", ns.qualname, f"severity:non-standard:{[sev_of(c) for _, c in ys]}", "a global from outside the standard library is reported below LIKELY_UNSAFE", file, ns.line)
     else:
         rep.ok("C04.table", ns.qualname, "every non-standard import -> >= LIKELY_UNSAFE", f"{file}:{ns.line}")
-    nsi = repo.func("fickling.fickle.Pickled.non_standard_imports")
+    nsi = canon_func(repo.func("fickling.fickle.Pickled.non_standard_imports"), "node")
     tests = [n for n in body_walk(nsi.node) if isinstance(n, ast.If)]
     loops = [n for n in nsi.node.body if isinstance(n, ast.For)]
     if len(tests) == 1 and src(tests[0].test) == "not is_std_module(node.module)" and loops and src(loops[0].iter) == "self.properties.imports" and any(isinstance(x, ast.Yield) for x in ast.walk(tests[0])):
         rep.ok("C04.table", nsi.qualname, "yields every import with `not is_std_module(node.module)`", f"{nsi.file}:{nsi.line}")
     else:
         rep.bad("C04.table", nsi.qualname, "filter", f"non_standard_imports no longer is `for node in self.properties.imports: if not is_std_module(node.module): yield node` (tests: {[src(t.test) for t in tests]})", nsi.file, nsi.line)
-    std = repo.func("fickling.fickle.is_std_module")
+    std = canon_func(repo.func("fickling.fickle.is_std_module"), None, {0: "module_name"})
     rets = [n.value for n in body_walk(std.node) if isinstance(n, ast.Return)]
     want = {"in_stdlib(module_name)", "module_name in BUILTIN_MODULE_NAMES"}
     got = set()
@@ -266,6 +267,7 @@ def check_table(repo: Repo, rep: Report):
     grows = []
     for fs in ap.methods.values():
         for fn in fs:
+            fn = canon_func(fn, None, {1: "node"}) if fn.name.startswith(("_process", "visit_")) else fn
             gg2 = None
             for n in body_walk(fn.node):
                 tgt = None
@@ -450,6 +452,7 @@ def check_dedupe(repo: Repo, rep: Report):
         f = c.method("analyze")
         if f is None:
             continue
+        f = canon_func(f, "node", {1: "context"})
         for lp in [n for n in f.node.body if isinstance(n, ast.For)]:
             view = VIEW.get(src(lp.iter))
             scs = [n for st in lp.body for n in walk_no_nested(st) if isinstance(n, ast.Call) and isinstance(n.func, ast.Attribute) and n.func.attr == "shorten_code"]
